@@ -534,6 +534,19 @@ func getDefinedArgT(
 			)
 	}
 
+	// a call spelled with another name than the declaration it is checked
+	// against (Array#<< and #append are checked against #push)
+	if definedArgT == nil && methodT.IsBuiltinMethod() && methodT.GetMethodName() != m.method {
+		definedArgT =
+			base.GetValueT(
+				methodT.GetFrame(),
+				class,
+				methodT.GetMethodName(),
+				definedArg,
+				methodT.IsStatic,
+			)
+	}
+
 	return definedArgT
 }
 
